@@ -88,6 +88,7 @@ def applyFact (nl : NodeLine) (kv : String) : NodeLine :=
       | _ => nl
     else if k == "real" then { nl with e := { e with absPath := unhex v } }
     else if k == "unlistable" then { nl with unlistable := v == "1" }
+    else if k == "unreadable" then { nl with e := { e with unreadable := v == "1" } }
     else if k == "zip" then
       if v == "corrupt" then { nl with zip := none }
       else if v == "empty" then { nl with zip := some [] }
